@@ -117,8 +117,10 @@ def cas_energy(mf, C, frozen_occ, active, nelec, ints=None, force_uhf_kernel=Fal
     n_alpha, n_beta = int(nelec[0]), int(nelec[1])
     if n_alpha > na_orb or n_beta > nb_orb or n_alpha < 0 or n_beta < 0:
         raise ValueError(f"electron numbers {nelec} do not fit active spaces ({na_orb},{nb_orb})")
-    same = (na_orb == nb_orb and np.allclose(h_a, h_b, atol=1e-12) and np.allclose(gaa, gbb, atol=1e-12)
-            and np.allclose(gaa, gab, atol=1e-12))
+    # restricted kernel only when alpha and beta Hamiltonians are identical to rounding (NB: no relative tolerance -
+    # a UHF solution that collapsed onto RHF differs by ~1e-6 in the orbitals and must go through direct_uhf)
+    same = (na_orb == nb_orb and np.allclose(h_a, h_b, rtol=0, atol=1e-13) and np.allclose(gaa, gbb, rtol=0, atol=1e-13)
+            and np.allclose(gaa, gab, rtol=0, atol=1e-13))
     if same and not force_uhf_kernel:
         solver = fci.direct_spin1.FCISolver()
         solver.conv_tol = 1e-13
@@ -199,6 +201,7 @@ def fock_space_min(ecore, h1, g2, nelec):
         k = sum(1 for q in det if q < p)
         return det[:k] + (p,) + det[k:], sign * (-1) ** k
 
+    nz2 = [(tuple(int(x) for x in ix), float(gso[tuple(ix)])) for ix in np.argwhere(gso != 0.0)]
     H = np.zeros((len(dets), len(dets)))
     for j, d in enumerate(dets):
         H[j, j] += ecore
@@ -209,10 +212,7 @@ def fock_space_min(ecore, h1, g2, nelec):
                     x, s = cre(x, s, p)
                     if x is not None:
                         H[index[x], j] += hso[p, q] * s
-        for p, q, r, t in itertools.product(range(n), repeat=4):
-            v = gso[p, q, r, t]
-            if v == 0.0:
-                continue
+        for (p, q, r, t), v in nz2:
             x, s = ann(d, 1, q)
             x, s = ann(x, s, t)
             x, s = cre(x, s, r)
